@@ -765,7 +765,13 @@ func ifPos(iff *ssa.If) token.Pos {
 }
 
 // errOf returns the call whose error result v is (directly or via Extract of the last result).
-func errOf(v ssa.Value) *ssa.Call {
+func errOf(v ssa.Value) *ssa.Call { return errOfSeen(v, map[ssa.Value]bool{}) }
+
+func errOfSeen(v ssa.Value, seen map[ssa.Value]bool) *ssa.Call {
+	if seen[v] {
+		return nil
+	}
+	seen[v] = true
 	switch x := v.(type) {
 	case *ssa.Call:
 		if resultIsErrorSig(x.Call.Signature()) && x.Call.Signature().Results().Len() == 1 {
@@ -782,7 +788,10 @@ func errOf(v ssa.Value) *ssa.Call {
 		// `err` variable merged from one call only
 		var only *ssa.Call
 		for _, e := range x.Edges {
-			c := errOf(e)
+			if e == v || seen[e] {
+				continue // loop-carried: the variable keeps what it had
+			}
+			c := errOfSeen(e, seen)
 			if c == nil {
 				if k, ok := e.(*ssa.Const); ok && k.IsNil() {
 					continue
